@@ -28,6 +28,8 @@ type S3 struct {
 	// Log of requests: "METHOD key"
 	Log []string
 	nup int
+	// FailHead, if non-zero, is the status every HEAD of an object is answered with (e.g. 500, 403).
+	FailHead int
 	// RefuseDelete, if set, makes DELETE of the keys it returns true for fail with 403 AccessDenied.
 	RefuseDelete func(key string) bool
 	Refused      int
@@ -143,6 +145,8 @@ func (s *S3) serve(w http.ResponseWriter, r *http.Request) {
 		sum := md5.Sum(b)
 		w.Header().Set("ETag", `"`+hex.EncodeToString(sum[:])+`"`)
 		w.WriteHeader(200)
+	case r.Method == "HEAD" && s.FailHead != 0:
+		w.WriteHeader(s.FailHead)
 	case r.Method == "GET" || r.Method == "HEAD":
 		b, ok := s.Get(key)
 		if !ok {
